@@ -580,7 +580,9 @@ def cases(kwcase=None):
                                   'order': st.lists(st.integers(0, 10 ** 6), min_size=1, max_size=8),
                                   'args': st.lists(st.integers(0, 9), min_size=1, max_size=12),
                                   'kwcase': kwcase if kwcase is not None else st.just([0]),
-                                  'logical_calls': st.just(kwcase is not None)})
+                                  'logical_calls': st.just(kwcase is not None),
+                                  # one case in four lets every invocation be preceded by one that fails
+                                  'fail_first': st.integers(0, 3).map(lambda k: k == 3) if kwcase is None else st.just(False)})
 
 
 def build(case):
@@ -657,6 +659,7 @@ def run_case(case, res=None):
     except Exception as e:
         fail('symbol-exception:' + exc_bucket(e), repr(e))
     compared = 0
+    failed_first = 0
     k = 0
     for c in callables:
         args = {}
@@ -670,6 +673,41 @@ def run_case(case, res=None):
                 continue
             inst_rec = live[case['args'][k % len(case['args'])] % len(live)]
             k += 1
+        # an invocation that fails first (a derived attribute read while self.n holds no number, a callable invoked without
+        # its arguments): whatever the failure leaves behind must not change what the next, well-formed invocation delivers.
+        # A failing body may have changed the population before it failed; then the rest of the case is not compared.
+        if case.get('fail_first') and (c.kind == 'derived' or c.params):
+            next_id = domain.id_generator.peek()
+            try:
+                with TimeLimit(20):
+                    if c.kind == 'derived':
+                        for i in domain.select_many(c.cls):
+                            if getattr(i, 'Id', None) == inst_rec.vals.get('Id'):
+                                keep = i.n
+                                i.n = None
+                                try:
+                                    getattr(i, c.name)
+                                finally:
+                                    i.n = keep
+                    elif c.kind == 'function':
+                        domain.find_symbol(c.name)()
+                    elif c.kind == 'bridge':
+                        getattr(domain.find_symbol('MYEE'), c.name)()
+                    elif c.kind == 'classop':
+                        getattr(domain.find_class(c.cls), c.name)()
+            except TimeLimit.Expired:
+                fail('invocation-does-not-terminate', 'failing invocation of %s %s' % (c.kind, c.name))
+            except Exception:
+                pass
+            try:
+                c04_interpret.compare_population(domain, w.sh, info, 'after-failed-%s' % c.kind)
+                if domain.id_generator.peek() != next_id:
+                    raise Violation('ids-used-up', info, '')
+            except Violation:
+                if res is not None:
+                    res.discarded['a failing invocation changed the population before it failed'] += 1
+                return
+            failed_first += 1
         try:
             if c.kind == 'derived':
                 want = model.derived(inst_rec, c.name, Evaluator(w, model))
@@ -725,6 +763,8 @@ def run_case(case, res=None):
         cl = sorted('f:' + f for f in features if f in ('recursion', 'bare-return', 'param-shadowed', 'derived-early-return', 'call-in-expression', 'call-statement',
                                                         'return-in-loop', 'where', 'foreach', 'while'))
         cl.append('depth-%d' % min(model.max_depth, 4))
+        if failed_first:
+            cl.append('failed-invocation-first')
         res.case(case['tape'], nt and compared > 0,
                  sample=info['bodies'] if nt and len(repr(info['bodies'])) < 1800 else None, classes=cl)
 
